@@ -157,10 +157,16 @@ def _try(f, x, default=None):
 def raw_and_peeled(f, e, note="NewType/alias resolution not documented for this predicate: raw and resolved reading"):
     """Admissible = f(raw) and, for wrapper entries, f(peeled)."""
     vals = [f(e.obj)]
+    inner = peel(e.obj)
+    if _is_classvar(inner) and typing.get_args(inner):
+        # origin() is documented to see through ClassVar[...]: the predicates built on it answer for the argument
+        vals.append(_try(f, peel(typing.get_args(inner)[0]), default=vals[0]))
+        note = "ClassVar[X]: answer for the annotation itself or for X (origin() unwraps ClassVar)"
     if "wrapper" in e.tags:
-        p = _try(f, peel(e.obj), default=vals[0])
+        p = _try(f, inner, default=vals[0])
         vals.append(p)
         # a partially resolved reading (NewType only) is covered by the two extremes for booleans
+    if len(vals) > 1:
         return Expect(_uniq(vals), note=note)
     return Expect(vals)
 
@@ -264,6 +270,8 @@ def exp_table_member(table):
             return None  # unions: no class to resolve to; only spelling / stability / no-raise are judged
         if e.tags & {"union", "literal", "bare-union"}:
             return BOTH
+        if "classvar" in e.tags and typing.get_args(peel(e.obj)):
+            return BOTH  # ClassVar[X]: the annotation itself or X (origin() unwraps ClassVar)
         vals = [_member(e.obj, table)]
         # aliases / subscripted generics / ABCs whose resolved class is in the table: the docstring
         # (isbuiltintype(Mapping) is False) and the property ("class the annotation resolves to") disagree
